@@ -70,7 +70,36 @@ def _split_case(line):
 def _kv(line):
     return dict((k, int(x)) for k, x in (p.split("=") for p in line.split(" ", 1)[1].split(",") if "=" in p))
 
+INVENTORY = {
+    "programs/revenue-distribution/src/instruction/mod.rs": ("RevenueDistributionInstructionData", ["InitializeProgram", "MigrateProgramAccounts", "SetAdmin",
+        "ConfigureProgram", "InitializeJournal", "InitializeDistribution", "ConfigureDistributionDebt", "FinalizeDistributionDebt",
+        "ConfigureDistributionRewards", "FinalizeDistributionRewards", "DistributeRewards", "InitializeContributorRewards", "SetRewardsManager",
+        "ConfigureContributorRewards", "VerifyDistributionMerkleRoot", "InitializeSolanaValidatorDeposit", "PaySolanaValidatorDebt",
+        "EnableSolanaValidatorDebtWriteOff", "WriteOffSolanaValidatorDebt", "InitializeSwapDestination", "SweepDistributionTokens", "WithdrawSol"]),
+    "programs/passport/src/instruction/mod.rs": ("PassportInstructionData", ["InitializeProgram", "SetAdmin", "ConfigureProgram", "RequestAccess", "GrantAccess", "DenyAccess"]),
+    "mock/swap-sol-2z/src/instruction.rs": ("MockSwapSol2zInstructionData", ["InitializeFillsRegistry", "BuySol", "DequeueFills"]),
+}
+
+def instruction_inventory(v):
+    """The variant lists of the three instruction enums in /repo's current source must be the ones the model knows
+    (a new instruction is outside the model: the tie of every property whose frame it could touch is broken)."""
+    for rel, (enum, expected) in INVENTORY.items():
+        try:
+            src = open("/repo/" + rel).read()
+        except OSError as e:
+            v.break_("instruction inventory: cannot read %s (%r)" % (rel, e), {}); continue
+        m = re.search(r"pub enum %s\s*\{(.*?)\n\}" % enum, src, re.S)
+        if not m:
+            v.break_("instruction inventory: enum %s not found in %s" % (enum, rel), {}); continue
+        body = re.sub(r"//[^\n]*", "", m.group(1))
+        body = re.sub(r"\{[^{}]*\}|\([^()]*\)", "", body)
+        found = [x.strip() for x in body.split(",") if x.strip()]
+        if found != expected:
+            v.break_("instruction inventory of %s differs from the model: source has %s, model knows %s" % (enum, found, expected),
+                     {"file": rel, "source_variants": found, "model_variants": expected})
+
 def run(ctx, v):
+    instruction_inventory(v)
     quick = ctx["tier"] == "quick"
     # values cycle through the 31 instruction kinds (nested kinds rotate with the round); see direct_wire.rs
     n_values, trunc_all_below, per_kind, batch = (434, 0, 1, 4000) if quick else (4030, 48, 2, 1240)
